@@ -1627,7 +1627,7 @@ def _t9():
 
 
 _spec9, _check9, _setup9 = _t9()
-m2s('_server_select_certificate/selection', ('C03',), TC + '_server_select_certificate', _spec9, check=_check9,
+m2s('_server_select_certificate/selection', ('C03', 'C20'), TC + '_server_select_certificate', _spec9, check=_check9,
     setup=_setup9,
     doc='the cipher suite returned (directly, or as a fallback candidate) is an element of the candidate list '
         'handed in and of client_hello.cipher_suites; certificate and key are the examined pair')
